@@ -181,6 +181,7 @@ def run_api(ctx, prog, fname, shapes=("NS", "RUN", "EXITED", "CHILD"), overrides
         return _cache[key]
     F = prog.fn(fname)
     I = new_interp(prog, overrides=overrides)
+    I.MAX_STATES = 40000
     entries = entry_states(prog, I, F, shapes, combos=combos)
     if extra_entry:
         entries = [s2 for s in entries for s2 in extra_entry(I, F, s)]
